@@ -1,10 +1,15 @@
 import Witverif.Proofs.AbiTotal
 /-!
-# C16 (core half) — the shared ABI generator never panics on supported inputs
+# C16 (core half) — totality of `write_to_memory`, `read_from_memory` and flat `lower` in the shared generator
 
-Model: `Abi.lower/store/load` with `Except Panic` at every `todo!/unreachable!/unwrap/assert!` of
-crates/core/src/abi.rs.  Tie: for every entry point and every generated type/function the real
-generator panics exactly when the model does (abi-trace runs each case under `catch_unwind`).
+Model: `Abi.lower/store/load/lift/dealloc/call/postReturn` with `Except Panic` at every
+`todo!/unreachable!/unwrap/assert!` of crates/core/src/abi.rs.  Tie: for every entry point and every
+generated type/function the real generator panics exactly when the model does (abi-trace runs each case
+under `catch_unwind`).  PROVED total here: `store`, `load`, and `lower` (≤ 16 flat slots).  NOT proved
+(partial obligations in the evidence; every C02/C03 glue theorem carries `call … = .ok ss` resp.
+`postReturn f = .ok ss` as a hypothesis): totality of `lift`, `dealloc`/`deallocIndirect`, `call`
+(including its final "stack is empty" assertion, i.e. the C02 clause "leaves no value unconsumed") and
+`post_return`; for those, absence of panics on supported inputs is a correspondence + search result.
 Backend half (each backend's own `match` arms): `Props/C16Backends.lean`.
 -/
 namespace Witverif.Props.C16
